@@ -81,17 +81,8 @@ Qed.
 
 (* ================================================================== names *)
 
-Lemma hd_tx_names name : hd [] (tx_names name) = xml_norm name.
-Proof. unfold tx_names. destruct (xml_norm name); reflexivity. Qed.
-
-Fixpoint no_cr (s : str) : bool :=
-  match s with [] => true | c :: r => negb (N.eqb c 13) && no_cr r end.
-
-Lemma xml_norm_no_cr s : no_cr s = true -> xml_norm s = s.
-Proof.
-  induction s as [|c r IH]; simpl; auto.
-  destruct (N.eqb c 13); simpl; [discriminate|]. intros H. now rewrite IH.
-Qed.
+Lemma hd_tx_names name : hd [] (tx_names name) = name.
+Proof. unfold tx_names. destruct name; reflexivity. Qed.
 
 (* ================================================================== category trees *)
 
@@ -840,7 +831,7 @@ Definition sd_sizes (sd : ser_data) : option (list (option num)) :=
 Definition ser_cache (f : child -> option cache) (s : ser) : option (list (option str)) :=
   option_map read_cache (first_some f (s_kids s)).
 
-Lemma reflect_name s sd : kids_reflect (s_kids s) sd -> ser_name s = xml_norm (sd_name sd).
+Lemma reflect_name s sd : kids_reflect (s_kids s) sd -> ser_name s = (sd_name sd).
 Proof. intros [H _]. unfold ser_name. fold (proj kid_names (s_kids s)). rewrite H. apply hd_tx_names. Qed.
 
 Lemma reflect_values ptag s sd : kids_reflect (s_kids s) sd -> is_xy_plot ptag = sd_is_xy sd ->
@@ -1501,7 +1492,7 @@ Definition cat_numeric (f : list cat_tree) (D : nat) : bool :=
 (** The text python-pptx reports for a category label of chart data with categories [f]
     of depth [D]: what the writer puts into c:v, line ends normalised by the XML parser. *)
 Definition cat_text (d1904 : bool) (f : list cat_tree) (D : nat) (l : label) : str :=
-  xml_norm (if cat_numeric f D then label_numstr d1904 l else label_str l).
+  (if cat_numeric f D then label_numstr d1904 l else label_str l).
 
 Lemma find_pt_enum_below l : forall k j, j < k -> find_pt j (rev (enum_pts k l)) = None.
 Proof.
@@ -1571,7 +1562,7 @@ Proof.
   - (* one level: strRef or numRef *)
     destruct (depth1_forest f Hall) as [EL EP].
     set (g := fun l => if cat_numeric f 1 then label_numstr d1904 l else label_str l).
-    set (texts := map (fun t => xml_norm (g (tree_label t))) f).
+    set (texts := map (fun t => (g (tree_label t))) f).
     assert (Hcx : cx_kind cx <> 2%N /\ cx_lvls cx = [] /\ cx_flat cx = enum_pts 0 texts).
     { unfold texts, g, cat_numeric. cbn [Nat.eqb andb] in *.
       destruct (match f with t :: _ => is_numeric_label (tree_label t) | [] => false end);
@@ -1593,7 +1584,7 @@ Proof.
       rewrite pt_label_seen. cbn [pt_v]. unfold texts.
       rewrite nth_error_map in Hi. destruct (nth_error f i) as [t|] eqn:Et; [|discriminate].
       injection Hi as <-.
-      rewrite (nth_map_in (fun t0 => xml_norm (g (tree_label t0))) f i (CatNode dlabel []) (@nil N)) by exact Hlt.
+      rewrite (nth_map_in (fun t0 => (g (tree_label t0))) f i (CatNode dlabel []) (@nil N)) by exact Hlt.
       rewrite (nth_error_nth _ _ _ Et). reflexivity. }
     split; [reflexivity|]. split; [|split; [exact Hlab|reflexivity]].
     rewrite Hlab, EP, !map_map. reflexivity.
@@ -1601,11 +1592,11 @@ Proof.
     assert (Hnum : cat_numeric f D = false).
     { unfold cat_numeric. destruct (Nat.eqb_spec D 1); [contradiction|reflexivity]. }
     assert (Hcx : cx = mkCatx 2 None [leaves_f f] []
-              (map (map (fun il => mkPt (fst il) (xml_norm (label_str (snd il))))) (levels f))).
+              (map (map (fun il => mkPt (fst il) ((label_str (snd il))))) (levels f))).
     { destruct (Nat.eqb_spec D 1) as [|_]; [contradiction|]. cbn [andb] in Hw. injection Hw as <-. reflexivity. }
     subst cx. cbn [cx_kind cx_lvls N.eqb Pos.eqb].
     assert (Hlv : map (map (fun q => (pt_idx q, pt_label q)))
-                    (map (map (fun il => mkPt (fst il) (xml_norm (label_str (snd il))))) (levels f))
+                    (map (map (fun il => mkPt (fst il) ((label_str (snd il))))) (levels f))
                   = map (map (tau' tau)) (levels f)).
     { rewrite map_map. apply map_ext. intros lv. rewrite map_map. apply map_ext. intros [i l].
       unfold tau', tau, cat_text. rewrite Hnum, pt_label_seen. reflexivity. }
@@ -1621,20 +1612,20 @@ Proof.
     pose proof (leaf_segs_f f (S D2) Hall) as Hones.
     destruct (idxs_ones (segs_f (S D2) f) 0 Hones) as [EI EN].
     set (sg := segs_f (S D2) f) in *.
-    set (texts := map (fun l => xml_norm (label_str l)) (expand sg)).
+    set (texts := map (fun l => (label_str l)) (expand sg)).
     assert (Hlen : length (expand sg) = length sg).
     { clear -Hones. induction sg as [|[l c] sg IH]; [reflexivity|].
       inversion Hones as [|? ? Hc Hr]; subst. simpl in Hc. subst c. simpl. now rewrite IH. }
-    assert (Hleaf : map (fun il => mkPt (fst il) (xml_norm (label_str (snd il)))) (level_f (S D2) 0 f)
+    assert (Hleaf : map (fun il => mkPt (fst il) ((label_str (snd il)))) (level_f (S D2) 0 f)
                     = enum_pts 0 texts).
     { rewrite EL, EI, enum_pts_seq, map_map. unfold texts. rewrite map_length, Hlen.
       apply map_ext_in. intros j Hj. apply in_seq in Hj. cbn [fst snd].
-      now rewrite (nth_map_in (fun l => xml_norm (label_str l)) (expand sg) j dlabel (@nil N)) by lia. }
+      now rewrite (nth_map_in (fun l => (label_str l)) (expand sg) j dlabel (@nil N)) by lia. }
     assert (Hn : Z.to_nat (leaves_f f) = length texts).
     { unfold texts. rewrite map_length, Hlen, <- ET, EN. now rewrite Nat2Z.id. }
     assert (Hsrc : cat_pts_src (mkCatx 2 None [leaves_f f] []
-               (map (fun il => mkPt (fst il) (xml_norm (label_str (snd il)))) (level_f (S D2) 0 f)
-                :: map (map (fun il => mkPt (fst il) (xml_norm (label_str (snd il)))))
+               (map (fun il => mkPt (fst il) ((label_str (snd il)))) (level_f (S D2) 0 f)
+                :: map (map (fun il => mkPt (fst il) ((label_str (snd il)))))
                      (map (fun k => level_f k 0 f) (rev (seq 0 (S D2)))))) = enum_pts 0 texts).
     { unfold cat_pts_src. cbn [cx_lvls]. rewrite Hleaf.
       destruct (enum_pts 0 texts) eqn:E; [|reflexivity].
@@ -1822,7 +1813,7 @@ Lemma reports_of_reflects t sers sds rk :
   Forall2 reflects sers sds ->
   Forall (fun sd => sd_is_xy sd = rk_xy rk /\ data_tags sd = rk_tags rk) sds ->
   is_xy_plot t = rk_xy rk ->
-  map ser_name sers = map (fun sd => xml_norm (sd_name sd)) sds /\
+  map ser_name sers = map (fun sd => (sd_name sd)) sds /\
   map (ser_values_raw t) sers = map sd_values sds /\
   (rk_xy rk = true -> map (ser_cache kid_xval) sers = map sd_xvalues sds) /\
   (rk = RBub -> map (ser_cache kid_bub) sers = map sd_sizes sds).
@@ -1857,7 +1848,7 @@ Qed.
 
 (** What the read API reports for a chart made by a writer. *)
 Theorem write_reports ct d c : write ct d = Ok c ->
-  chart_names c = kept ct (map xml_norm (data_names d)) /\
+  chart_names c = kept ct (data_names d) /\
   chart_values c = kept ct (data_values d) /\
   uniq (area_sers c) /\
   match d with DCat _ _ _ => True | _ => chart_xvalues c = kept ct (data_xvalues d) end.
@@ -2003,7 +1994,7 @@ Qed.
 (** After replace_data the read API reports the names and values of the new data. *)
 Theorem replace_reports sc d c c' : replace sc d c = Ok c' -> homog (ch_plots c) ->
   length (area_sers c') = data_len d /\
-  chart_names c' = map xml_norm (data_names d) /\
+  chart_names c' = data_names d /\
   chart_values c' = data_values d /\
   (forall p0 r, ch_plots c = p0 :: r -> is_xy_plot (p_tag p0) = true -> chart_xvalues c' = data_xvalues d) /\
   (forall p0 r, ch_plots c = p0 :: r -> p_tag p0 = pt_bubble -> chart_sizes c' = data_sizes d).
@@ -2227,53 +2218,16 @@ Qed.
 
 (* ================================================================== label texts *)
 
-Lemma no_cr_app a b : no_cr (a ++ b) = no_cr a && no_cr b.
-Proof. induction a as [|c a IH]; simpl; auto. rewrite IH. now rewrite andb_assoc. Qed.
-
-Lemma no_cr_digits fuel : forall n acc, no_cr acc = true -> no_cr (dec_digits_fuel fuel n acc) = true.
-Proof.
-  induction fuel as [|fuel IH]; intros n acc Hacc; cbn [dec_digits_fuel]; auto.
-  assert (Hd : N.eqb (48 + n mod 10) 13 = false).
-  { apply N.eqb_neq. intros H. pose proof (N.le_add_r 48 (n mod 10)) as L. rewrite H in L.
-    apply L. reflexivity. }
-  assert (Hc : no_cr ((48 + n mod 10)%N :: acc) = true).
-  { cbn [no_cr]. now rewrite Hd, Hacc. }
-  destruct (n <? 10)%N; [exact Hc|]. apply IH. exact Hc.
-Qed.
-Lemma no_cr_show_Z z : no_cr (show_Z z) = true.
-Proof.
-  destruct z; simpl; auto; unfold dec_of_N; try apply no_cr_digits; auto.
-Qed.
-Lemma digits_nonempty fuel : forall n acc, acc <> [] \/ fuel <> O -> dec_digits_fuel fuel n acc <> [].
-Proof.
-  induction fuel as [|fuel IH]; intros n acc H; simpl.
-  - destruct H; congruence.
-  - destruct (n <? 10)%N; [discriminate|]. apply IH. left. discriminate.
-Qed.
-Lemma show_Z_nonempty z : show_Z z <> [].
-Proof.
-  destruct z; simpl; try discriminate. unfold dec_of_N. apply digits_nonempty. right. discriminate.
-Qed.
-
-(** A string label without carriage return is reported verbatim (the empty string too). *)
-Lemma cat_text_str b f D s : cat_numeric f D = false -> no_cr s = true ->
-  cat_text b f D (LStr s) = s.
-Proof.
-  intros Hn Hc. unfold cat_text. rewrite Hn. cbn [label_str]. now apply xml_norm_no_cr.
-Qed.
+(** A string label is reported verbatim (the empty string too, carriage returns too). *)
+Lemma cat_text_str b f D s : cat_numeric f D = false -> cat_text b f D (LStr s) = s.
+Proof. intros Hn. unfold cat_text. now rewrite Hn. Qed.
 (** A number label is reported as the text Python gives for the number. *)
-Lemma cat_text_num b f t : cat_numeric f 1 = true -> no_cr t = true ->
-  cat_text b f 1 (LNum t) = t.
-Proof.
-  intros Hn Hc. unfold cat_text. rewrite Hn. cbn [label_numstr]. now apply xml_norm_no_cr.
-Qed.
+Lemma cat_text_num b f t : cat_numeric f 1 = true -> cat_text b f 1 (LNum t) = t.
+Proof. intros Hn. unfold cat_text. now rewrite Hn. Qed.
 (** A date label is reported as its serial number with one decimal. *)
 Lemma cat_text_date b f y m d : cat_numeric f 1 = true ->
   cat_text b f 1 (LDate y m d) = show_Z (excel_serial b y m d) ++ s_dot0.
-Proof.
-  intros Hn. unfold cat_text. rewrite Hn. cbn [label_numstr].
-  apply xml_norm_no_cr. rewrite no_cr_app, no_cr_show_Z. reflexivity.
-Qed.
+Proof. intros Hn. unfold cat_text. now rewrite Hn. Qed.
 
 (** The serial date number: days since 1899-12-31, plus one after 1900-02-28 (day 59), so
     that 60 (the 29th of February 1900 of Excel) is never produced and order is kept; in
@@ -2296,9 +2250,6 @@ Proof.
     destruct (Z.ltb_spec 59 (ordinal (y2, m2, d2) - ordinal (1899, 12, 31))); lia.
 Qed.
 
-Lemma map_norm_no_cr l : Forall (fun s => no_cr s = true) l -> map xml_norm l = l.
-Proof. induction 1; simpl; auto. now rewrite xml_norm_no_cr, IHForall. Qed.
-
 (* ================================================================== witnesses and examples *)
 
 Definition w_ser (name : str) (vals : list (option str)) : cat_series := mkCS name s_general vals.
@@ -2310,17 +2261,22 @@ Definition w_none : chart_data := DCat w_cats None [].
 
 (** A pie chart made from two series reports one. *)
 Lemma pie_refuted : exists ct d c, write ct d = Ok c /\
-  chart_values c <> data_values d /\ chart_names c <> map xml_norm (data_names d).
+  chart_values c <> data_values d /\ chart_names c <> data_names d.
 Proof.
   exists 5, w_two. eexists. split; [vm_compute; reflexivity|]. split; vm_compute; discriminate.
 Qed.
 
-(** A carriage return in a series name does not come back. *)
-Lemma cr_refuted : exists ct d c, write ct d = Ok c /\ chart_names c <> data_names d.
-Proof.
-  exists 57, (DCat w_cats None [w_ser [110; 13; 109]%N [Some [49%N]]]). eexists.
-  split; [vm_compute; reflexivity|]. vm_compute. discriminate.
-Qed.
+(** Regression (fixed in python-pptx d4e5a870): a carriage return in a series name, a
+    category label or a number format used to come back as a line feed; all three come back
+    verbatim. *)
+Definition w_cr : str := [110; 13; 109; 13; 10]%N.
+Definition w_cr_data : chart_data :=
+  DCat [CatNode (LStr w_cr) []; CatNode (LStr [13%N]) []] None [mkCS w_cr w_cr [Some [49%N]]].
+Lemma cr_regression : exists c p s vc, write 57 w_cr_data = Ok c /\ ch_plots c = [p] /\ p_sers p = [s] /\
+  chart_names c = data_names w_cr_data /\ chart_names c = [w_cr] /\
+  plot_cat_labels p = [w_cr; [13%N]] /\
+  first_some kid_val (s_kids s) = Some vc /\ ca_fmt vc = Some w_cr.
+Proof. do 4 eexists. split; [vm_compute; reflexivity|]. repeat split. Qed.
 
 (** Regression (fixed in python-pptx fc4e9fce): a category whose label is the empty string
     used to be reported as the word None; it is reported as the empty string. *)
@@ -2360,8 +2316,8 @@ Proof. do 5 eexists. split; [vm_compute; reflexivity|]. repeat split. Qed.
 
 (** The number formats are kept as given (line ends normalised), whatever they contain. *)
 Lemma number_format_kept :
-  (forall fmt vals, ca_fmt (num_cache fmt vals) = Some (xml_norm fmt)) /\
-  (forall b f fmt cx, write_cat b f (Some fmt) = Ok cx -> cx_kind cx = 1%N -> cx_fmt cx = Some (xml_norm fmt)).
+  (forall fmt vals, ca_fmt (num_cache fmt vals) = Some (fmt)) /\
+  (forall b f fmt cx, write_cat b f (Some fmt) = Ok cx -> cx_kind cx = 1%N -> cx_fmt cx = Some (fmt)).
 Proof.
   split; [reflexivity|]. intros b f fmt cx. unfold write_cat.
   destruct (forest_depth f) as [D|]; [|discriminate].
@@ -2424,14 +2380,3 @@ Proof.
   intros p [<-|[]]. reflexivity.
 Qed.
 
-(** Names without carriage return are reported verbatim. *)
-Theorem write_names_verbatim ct d c : write ct d = Ok c ->
-  Forall (fun s => no_cr s = true) (data_names d) -> chart_names c = kept ct (data_names d).
-Proof.
-  intros Hw Hn. destruct (write_reports ct d c Hw) as [H _]. now rewrite H, map_norm_no_cr.
-Qed.
-Theorem replace_names_verbatim sc d c c' : replace sc d c = Ok c' -> homog (ch_plots c) ->
-  Forall (fun s => no_cr s = true) (data_names d) -> chart_names c' = data_names d.
-Proof.
-  intros Hr Hh Hn. destruct (replace_reports sc d c c' Hr Hh) as [_ [H _]]. now rewrite H, map_norm_no_cr.
-Qed.
